@@ -52,8 +52,8 @@ RULE = (
     "repairable with tolerance, at every position) and the discovery layouts for two namings are re-explored with "
     "os.listdir / os.scandir answering in each of five non-sorted orders (mc.seams.ListingPolicy: together with the "
     "sorted one, every permutation of a directory with <= 3 entries), verdicts, repairs and reports against the same model. "
-    "sos/eos: every token list |x|<=3 over {0,1,2} x stored 1-D / (R,3) x tokens_only x 4 sos/eos "
-    "settings x {SpectDataSet, LangDataSet}. A state is non-trivial when it carries >=1 injected defect."
+    "sos/eos: every token list |x|<=3 over {0,1,2} x stored 1-D / (R,3) (boundaries from a fixed menu incl. -1, 3, 4) x "
+    "tokens_only x 8 sos/eos settings (4 of them with ids that collide with boundary values: (3,4), (4,3), sos=-1, eos=-1) x {SpectDataSet, LangDataSet}. A state is non-trivial when it carries >=1 injected defect."
 )
 ASSUMPTIONS = [
     "small scope: 1-2 utterances, T in {3,4} (thorough also 1), <=2 reference rows, tolerances 0..2",
@@ -77,6 +77,7 @@ ASSUMPTIONS = [
 BUDGET_S = {"quick": 240, "thorough": 2400}
 
 SOS, EOS = 7, 8
+RT_BOUNDS = ((-1, -1), (0, 3), (1, 4), (2, 2), (3, 4), (0, 4), (3, 3))  # (start, end) menu of the round-trip pass
 F = 2
 FIXES = (None, 0, 1, 2)
 LISTINGS = [0]  # directory listings answered by the listing-order seam in this process
@@ -937,10 +938,9 @@ def roundtrip_case(ctx, root, cls, ndim, tokens_only, sos, eos, x, seed):
     if ndim == 1:
         stored = O.tens("int64", [len(x)], list(x))
     else:
-        rows = []
-        for tok in x:
-            s = rng.choice([-1, 0, 1, 2])
-            rows.append([tok, s, -1 if s < 0 else rng.choice(range(s, T + 1))])
+        # boundaries from a fixed menu (not drawn): every row position meets unknown (-1), 3 and 4 - the values the
+        # sos / eos ids of the COLLIDING settings below take (a boundary must never be mistaken for sos / eos)
+        rows = [[tok] + list(RT_BOUNDS[(i + len(x) + 2 * tok) % len(RT_BOUNDS)]) for i, tok in enumerate(x)]
         stored = O.tens("int64", [len(x), 3], rows)
     shutil.rmtree(root, ignore_errors=True)
     case = {"kind": "roundtrip", "cls": cls, "ndim": ndim, "tokens_only": tokens_only, "sos": sos, "eos": eos,
@@ -1015,7 +1015,7 @@ def run_roundtrip(ctx, spec, tier, seed):
     root = scratch("rt-%s-%d" % (spec["cls"], spec["ndim"]))
     try:
         for tokens_only in (False, True):
-            for sos, eos in ((None, None), (SOS, None), (None, EOS), (SOS, EOS)):
+            for sos, eos in ((None, None), (SOS, None), (None, EOS), (SOS, EOS), (3, 4), (4, 3), (-1, None), (None, -1)):
                 for x in token_lists(3 if tier == "quick" else 4):
                     roundtrip_case(ctx, root, spec["cls"], spec["ndim"], tokens_only, sos, eos, x, seed)
         ctx.sample({"roundtrip": spec, "example": {"x": [1, 0], "sos": SOS, "eos": EOS,
